@@ -90,6 +90,7 @@ package allocator
 //@ pred InvKeys(a *Allocator, on bool, svc string, al *alloc) :=
 //@     (forall x string :: (a.sharingKeyForIP[x] != nil) == (x in a.portsInUse))
 //@     && (forall x string, s string :: (s in a.servicesOnIP[x]) ==> (x in a.portsInUse))
+//@     && (forall x string :: { mapdom(a.portsInUse, x) } (x in a.portsInUse) ==> (exists s string :: s in a.servicesOnIP[x]))
 //@     && (forall x string, s string :: (s in a.servicesOnIP[x]) ==>
 //@             a.sharingKeyForIP[x].sharing == RecG(a, on, svc, al, s).sharing && a.sharingKeyForIP[x].backend == RecG(a, on, svc, al, s).backend)
 //@     && (forall x string, s1 string, s2 string :: s1 != s2 && (s1 in a.servicesOnIP[x]) && (s2 in a.servicesOnIP[x]) ==> RecG(a, on, svc, al, s1).sharing != "")
@@ -120,6 +121,7 @@ package allocator
 //@ pred InvKeysA(a *Allocator, on bool, svc string, al *alloc, i int) :=
 //@     (forall x string :: (a.sharingKeyForIP[x] != nil) == (x in a.portsInUse))
 //@     && (forall x string, s string :: (s in a.servicesOnIP[x]) ==> (x in a.portsInUse))
+//@     && (forall x string :: { mapdom(a.portsInUse, x) } (x in a.portsInUse) ==> (exists s string :: s in a.servicesOnIP[x]))
 //@     && (forall x string, s string :: (s in a.servicesOnIP[x]) ==>
 //@             a.sharingKeyForIP[x].sharing == a.allocated[s].sharing && a.sharingKeyForIP[x].backend == a.allocated[s].backend)
 //@     && (forall x string, s1 string, s2 string :: s1 != s2 && (s1 in a.servicesOnIP[x]) && (s2 in a.servicesOnIP[x]) ==> a.allocated[s1].sharing != "")
@@ -133,7 +135,7 @@ package allocator
 
 //@ func (*Allocator).assign
 //@   modifies map[string]*alloc, map[Port]string, map[string]bool, map[string]int, map[string]PoolCounters, fresh *ipaddr.Prefix, fresh *ipaddr.Cursor, fresh *ipaddr.Position, fresh []ipaddr.Prefix, gint("cursor.pos"), fresh []string, fresh []interface{}
-//@   requires Inv(a) && a.countersChangedCallback != nil && WFAlloc(alloc) && alloc.pool in a.pools.ByName && SafeFor(a, svc, alloc)
+//@   requires Inv(a) && a.countersChangedCallback != nil && WFAlloc(alloc) && alloc.pool in a.pools.ByName && SafeFor(a, svc, alloc) && PoolsOK(a.pools.ByName)
 //@   requires forall s string :: a.allocated[s] != alloc || s == svc
 //@   ensures Inv(a)
 //@   ensures a.allocated[svc] == alloc
@@ -182,6 +184,10 @@ package allocator
 //@   assert before To4#1: [portsNext] InvPortsA(a, true, svc, alloc, idx(1) + 1, 0)
 //@   assert before To4#1: [k1] forall x string :: (a.sharingKeyForIP[x] != nil) == (x in a.portsInUse)
 //@   assert before To4#1: [k2] forall x string, s string :: (s in a.servicesOnIP[x]) ==> (x in a.portsInUse)
+//@   assert before To4#1: [portsDomSame] forall x string :: { mapdom(a.portsInUse, x) } x != net.ipstr(ip) ==> (x in a.portsInUse) == head(x in a.portsInUse)
+//@   assert before To4#1: [sameOthersH] forall x string, s string :: { head(mapdom(mapval(a.servicesOnIP, x), s)) } x != net.ipstr(ip) ==> (s in a.servicesOnIP[x]) == head(s in a.servicesOnIP[x])
+//@   assert before To4#1: [k2bOther] forall x string :: { mapdom(a.portsInUse, x) } x != net.ipstr(ip) && (x in a.portsInUse) ==> (exists s string :: s in a.servicesOnIP[x])
+//@   assert before To4#1: [k2b] forall x string :: { mapdom(a.portsInUse, x) } (x in a.portsInUse) ==> (exists s string :: s in a.servicesOnIP[x])
 //@   assert before To4#1: [k3] forall x string, s string :: (s in a.servicesOnIP[x]) ==>
 //@       a.sharingKeyForIP[x].sharing == a.allocated[s].sharing && a.sharingKeyForIP[x].backend == a.allocated[s].backend
 //@   assert before To4#1: [othersKey] forall s string :: s != svc && (s in a.servicesOnIP[net.ipstr(ip)]) ==> a.allocated[s].sharing == alloc.sharing && alloc.sharing != ""
@@ -209,17 +215,14 @@ package allocator
 //@   ensures [nonneg] result0 >= 0 && result1 >= 0 && result2 >= 0
 //@   loop 1 invariant total >= 0 && ipv4 >= 0 && ipv6 >= 0
 //@   modifies fresh *ipaddr.Prefix, fresh *ipaddr.Cursor, fresh *ipaddr.Position, fresh []ipaddr.Prefix, gint("cursor.pos")
-//@ func (*Allocator).updatePoolStats
-//@   requires a != nil && p != nil && a.poolToCounters != nil
-//@   modifies map(a.poolToCounters), fresh *ipaddr.Prefix, fresh *ipaddr.Cursor, fresh *ipaddr.Position, fresh []ipaddr.Prefix, gint("cursor.pos"), fresh []string
-
 //@ func (*Allocator).Unassign
-//@   requires Inv(a) && a.countersChangedCallback != nil
+//@   requires Inv(a) && a.countersChangedCallback != nil && PoolsOK(a.pools.ByName)
 //@   modifies map[string]*alloc, map[Port]string, map[string]bool, map[string]int, map[string]PoolCounters, fresh *ipaddr.Prefix, fresh *ipaddr.Cursor, fresh *ipaddr.Position, fresh []ipaddr.Prefix, gint("cursor.pos"), fresh []string, fresh []interface{}
 //@   ensures Inv(a)
 //@   ensures a.allocated[svc] == nil
 //@   ensures forall s string :: s != svc ==> a.allocated[s] == old(a.allocated[s])
 //@   ensures [poolsSame] forall n string :: (n in a.pools.ByName) == old(n in a.pools.ByName) && a.pools.ByName[n] == old(a.pools.ByName[n])
+//@   ensures [released] forall x string, s string :: (s in a.servicesOnIP[x]) == (old(s in a.servicesOnIP[x]) && s != svc)
 //@   loop 1 invariant al != nil && al == old(a.allocated[svc]) && a.allocated[svc] == nil
 //@   loop 1 invariant forall s string :: s != svc ==> a.allocated[s] == old(a.allocated[s])
 //@   loop 1 invariant forall n string :: (n in a.pools.ByName) == old(n in a.pools.ByName) && a.pools.ByName[n] == old(a.pools.ByName[n])
@@ -619,3 +622,25 @@ package allocator
 //@       && a.allocated[svcKey].ips[0] == existingIP && a.allocated[svcKey].ips[1] == result0 && net.is4(result0) != net.is4(existingIP)
 //@   ensures [fromPool] result1 == nil ==> (poolName in a.pools.ByName) && InCIDRs(a.pools.ByName[poolName], result0)
 //@   ensures [poolsSame] a.pools == old(a.pools) && (forall n string :: (n in a.pools.ByName) == old(n in a.pools.ByName) && a.pools.ByName[n] == old(a.pools.ByName[n]))
+
+// ---- C11: released addresses are reusable; reported pool usage ----
+// An address nobody holds can be given to any service with any ports and keys.
+//@ lemma C11.releasedReusable: forall a *Allocator, x string, svc string, ports []Port, sharing string, backend string ::
+//@     Inv(a) && (forall s string :: !(s in a.servicesOnIP[x])) ==> Sharable(a, svc, x, ports, sharing, backend)
+// An address whose only holder is svc itself can be re-used by svc with any key (sole tenant) if its ports are its own.
+//@ lemma C11.noGhostReservation: forall a *Allocator, x string :: Inv(a) && a.sharingKeyForIP[x] != nil ==> (exists s string :: Holds(a, s, x))
+
+//@ func (*Allocator).CountersForPool
+//@   requires a != nil
+//@   ensures result == a.poolToCounters[name]
+//@   modifies nothing
+
+//@ func (*Allocator).updatePoolStats
+//@   requires a != nil && p != nil && a.poolToCounters != nil && PoolCIDRsOK(p)
+//@   ensures [assigned4] a.poolToCounters[p.Name].AssignedIPv4 == len(a.poolIPV4InUse[p.Name])
+//@   ensures [assigned6] a.poolToCounters[p.Name].AssignedIPv6 == len(a.poolIPV6InUse[p.Name])
+//@   ensures [nonneg] a.poolToCounters[p.Name].AssignedIPv4 >= 0 && a.poolToCounters[p.Name].AssignedIPv6 >= 0
+//@   ensures [sum4] a.poolToCounters[p.Name].AssignedIPv4 + a.poolToCounters[p.Name].AvailableIPv4 >= 0
+//@   ensures [sum6] a.poolToCounters[p.Name].AssignedIPv6 + a.poolToCounters[p.Name].AvailableIPv6 >= 0
+//@   ensures [others] forall n string :: n != p.Name ==> a.poolToCounters[n] == old(a.poolToCounters[n]) && (n in a.poolToCounters) == old(n in a.poolToCounters)
+//@   modifies map(a.poolToCounters), fresh *ipaddr.Prefix, fresh *ipaddr.Cursor, fresh *ipaddr.Position, fresh []ipaddr.Prefix, gint("cursor.pos"), fresh []string
